@@ -9,6 +9,7 @@ import (
 	"errors"
 	"fmt"
 	"io"
+	"net/url"
 	"sync"
 	"sync/atomic"
 	"time"
@@ -69,6 +70,13 @@ func (pl *Playlist) M3u8(token string) ([]byte, error) {
 	fmt.Fprintf(w,
 		"#EXTM3U\n#EXT-X-VERSION:3\n#EXT-X-ALLOW-CACHE:NO\n#EXT-X-TARGETDURATION:%d\n#EXT-X-MEDIA-SEQUENCE:%d\n\n",
 		duration, seq)
+
+	// the token goes into the query of every segment URI: escape it, or a token with
+	// '&', '#', ' ', a line break... would not come back with the segment request
+	// (or would break the playlist line)
+	if len(token) > 0 {
+		token = url.QueryEscape(token)
+	}
 
 	// 列表部分
 	for _, seg := range segments {
